@@ -1,7 +1,256 @@
-/- Model `Codec` (driver token `codec`) — stub, to be filled in. -/
+/-
+  Model of the message codec and of the row codec (C19).
+
+  * `queue/sqlite/serialization.py :: serialize_message` and `persistence/sqlite/transaction.py ::
+    AtomicTransaction.push_message` — both are a loop over `message.__dict__`; the model is an interpreter of
+    the *shape* of that loop (a list of branch tokens), and the two shapes actually found in the source are
+    generated into `Stab.Gen.Schema` on every run;
+  * `deserialize_message` + `create_message_from_dict`: conversions keyed by field NAME (`status`,
+    `original_status`, `phase`), the popped metadata keys, then `cls(**data)`;
+  * the store: an UPDATE changes exactly the columns of its SET list; tasks are read `ORDER BY id`.
+
+  JSON values are abstract: the codec only ever asks whether a value is a string (and which), whether it is
+  truthy, and otherwise passes it on unchanged.
+-/
+import Stab.Model.Basic
+
 namespace Stab.Codec
 
-/-- driver entry: the rest of the request line after the model token -/
-def drive (_rest : String) : String := "unimplemented"
+/-- an abstract JSON value: `null`, a string, or anything else (identified by an opaque token, with its
+    Python truthiness) -/
+inductive J where
+  | null
+  | str (s : String)
+  | other (truthy : Bool) (id : String)
+  deriving DecidableEq, Repr, Inhabited
+
+def J.truthy : J → Bool
+  | .null => false
+  | .str s => s != ""
+  | .other t _ => t
+
+/-- `SyntheticStageOwner` -/
+inductive Phase where
+  | stageBefore | stageAfter
+  deriving DecidableEq, Repr, Inhabited
+
+def Phase.name : Phase → String
+  | .stageBefore => "STAGE_BEFORE" | .stageAfter => "STAGE_AFTER"
+def Phase.all : List Phase := [.stageBefore, .stageAfter]
+def Phase.ofName? (s : String) : Option Phase := Phase.all.find? (fun p => p.name == s)
+
+/-- a Python value held by a message attribute -/
+inductive PyVal where
+  | json (j : J)                 -- None / str / int / bool / list / dict …
+  | status (s : Status)          -- a `WorkflowStatus` member
+  | phase (p : Phase)            -- a `SyntheticStageOwner` member
+  | time (iso : String)          -- a `datetime` (by its isoformat)
+  | enumValue (tag : String)     -- `member.value` of an enum (only produced by a serialiser of the wrong shape)
+  deriving DecidableEq, Repr, Inhabited
+
+/-- kind of a dataclass field, from its annotation -/
+inductive Kind where
+  | plain | status | optStatus | phase | datetime
+  deriving DecidableEq, Repr, Inhabited
+
+def Kind.ofName? : String → Option Kind
+  | "plain" => some .plain | "status" => some .status | "optStatus" => some .optStatus
+  | "phase" => some .phase | "datetime" => some .datetime | _ => none
+
+/-- a value of the right Python type for a field of that kind -/
+def conforms : Kind → PyVal → Bool
+  | .plain, .json _ => true
+  | .status, .status _ => true
+  | .optStatus, .status _ => true
+  | .optStatus, .json .null => true
+  | .phase, .phase _ => true
+  | .datetime, .time _ => true
+  | _, _ => false
+
+abbrev Fields := List (String × PyVal)      -- `message.__dict__` in order
+
+/-- `key.startswith("_")` -/
+def isPrivate (k : String) : Bool :=
+  match k.toList with
+  | '_' :: _ => true
+  | _ => false
+
+/-! ### the serialisers, as an interpreter of the loop shape -/
+
+/-- what the loop puts into `data[key]`; `none` = not JSON-serialisable (json.dumps would raise) -/
+def encodeWith (shape : List String) (v : PyVal) : Option J :=
+  match v with
+  | .json j => if shape.contains "else:id" then some j else none
+  | .time iso => if shape.contains "datetime:isoformat" then some (.str iso) else none
+  | .status s =>
+    if shape.contains "Enum:name" then some (.str s.name)
+    else if shape.contains "Enum:value" then some (.other true ("value-of-" ++ s.name)) else none
+  | .phase p =>
+    if shape.contains "Enum:name" then some (.str p.name)
+    else if shape.contains "Enum:value" then some (.str ("value-of-" ++ p.name)) else none
+  | .enumValue _ => none
+
+/-- the payload dict (before `json.dumps`); `none` if some value cannot be dumped -/
+def serializeWith (shape : List String) : Fields → Option (List (String × J))
+  | [] => some []
+  | (k, v) :: rest =>
+    if shape.contains "skip:_" && isPrivate k then serializeWith shape rest
+    else match encodeWith shape v, serializeWith shape rest with
+      | some j, some r => some ((k, j) :: r)
+      | _, _ => none
+
+/-- the shape both serialisers are expected to have -/
+def canonicalShape : List String := ["skip:_", "datetime:isoformat", "Enum:name", "else:id"]
+
+/-! ### `deserialize_message` -/
+
+/-- the three name-keyed conversions; `none` = the enum lookup raises `KeyError` -/
+def convert (k : String) (j : J) : Option PyVal :=
+  if k = "status" then
+    match j with
+    | .str n => (Status.ofName? n).map .status
+    | _ => some (.json j)
+  else if k = "original_status" then
+    if j.truthy then
+      match j with
+      | .str n => (Status.ofName? n).map .status
+      | _ => none
+    else some (.json j)
+  else if k = "phase" then
+    match j with
+    | .str n => (Phase.ofName? n).map .phase
+    | _ => some (.json j)
+  else some (.json j)
+
+def convertAll : List (String × J) → Option Fields
+  | [] => some []
+  | (k, j) :: rest =>
+    match convert k j, convertAll rest with
+    | some v, some r => some ((k, v) :: r)
+    | _, _ => none
+
+def popped : List String := ["message_id", "created_at", "attempts", "max_attempts"]
+
+def lookup {α} (k : String) : List (String × α) → Option α
+  | [] => none
+  | (k', v) :: rest => if k' = k then some v else lookup k rest
+
+/-- `cls(**data)`: every key must be a field; missing fields take their default -/
+def construct (spec : List (String × Kind)) (dflt : String → PyVal) (data : Fields) : Option Fields :=
+  if data.all (fun e => spec.any (fun f => f.1 == e.1)) then
+    some (spec.map (fun f => (f.1, (lookup f.1 data).getD (dflt f.1))))
+  else none
+
+def deserialize (spec : List (String × Kind)) (dflt : String → PyVal) (payload : List (String × J)) : Option Fields :=
+  match convertAll payload with
+  | none => none
+  | some data => construct spec dflt (data.filter (fun e => !popped.contains e.1))
+
+/-- what a round trip is expected to give: every field unchanged except the popped metadata, which the
+    constructor re-defaults (the queue then sets `message_id`/`attempts` from the row) -/
+def expected (dflt : String → PyVal) (m : Fields) : Fields :=
+  m.map (fun e => (e.1, if popped.contains e.1 then dflt e.1 else e.2))
+
+/-- the table-level conditions under which the round trip is the identity -/
+def registryOk (spec : List (String × Kind)) : Bool :=
+  (spec.map (·.1)).Nodup
+  && spec.all (fun f => !isPrivate f.1)
+  && spec.all (fun f => match f.2 with
+      | .status => f.1 == "status"
+      | .optStatus => f.1 == "original_status"
+      | .phase => f.1 == "phase"
+      | .datetime => popped.contains f.1
+      | .plain => f.1 != "status" && f.1 != "original_status" && f.1 != "phase")
+
+/-- a generated field list (kinds as strings) as a spec -/
+def specOf : List (String × String) → Option (List (String × Kind))
+  | [] => some []
+  | (n, k) :: rest =>
+    match Kind.ofName? k, specOf rest with
+    | some kd, some r => some ((n, kd) :: r)
+    | _, _ => none
+
+/-- the message `m` is an instance of the dataclass `spec` -/
+def instanceOf (spec : List (String × Kind)) (m : Fields) : Bool :=
+  m.map (·.1) == spec.map (·.1) && (m.zip spec).all (fun p => conforms p.2.2 p.1.2)
+
+/-! ### rows -/
+
+abbrev Row := List (String × String)     -- column -> stored text
+
+/-- `UPDATE t SET c = new[c] for c in set` on one row -/
+def applyUpdate (set : List String) (new old : Row) : Row :=
+  old.map (fun e => if set.contains e.1 then (e.1, (lookup e.1 new).getD e.2) else e)
+
+/-- `SELECT … ORDER BY id ASC` over rows `(id, payload)` -/
+def readTasks (rows : List (Nat × String)) : List (Nat × String) :=
+  rows.mergeSort (fun a b => a.1 ≤ b.1)
+
+/-! ### text protocol
+
+`codec roundtrip <shape> <spec> <fields>`  — serialise with the given loop shape, then deserialise:
+   shape  = tokens joined by `+`  (e.g. `skip:_+datetime:isoformat+Enum:name+else:id`)
+   spec   = `name:kind,…`
+   fields = `name=value,…` with value `N` (null) | `S<hex>` (str) | `O0<id>`/`O1<id>` (other, falsy/truthy) |
+            `ES<NAME>` (status) | `EP<NAME>` (phase) | `T<id>` (datetime)
+   output = `name=value,…` (popped metadata shown as `<default>`) | `unserializable` | `undeserializable`
+-/
+
+def parseVal (t : String) : Option PyVal :=
+  if t == "N" then some (.json .null)
+  else if t.startsWith "ES" then (Status.ofName? (t.drop 2).toString).map .status
+  else if t.startsWith "EP" then (Phase.ofName? (t.drop 2).toString).map .phase
+  else if t.startsWith "S" then some (.json (.str (t.drop 1).toString))
+  else if t.startsWith "O0" then some (.json (.other false (t.drop 2).toString))
+  else if t.startsWith "O1" then some (.json (.other true (t.drop 2).toString))
+  else if t.startsWith "T" then some (.time (t.drop 1).toString)
+  else none
+
+def showVal : PyVal → String
+  | .json .null => "N"
+  | .json (.str s) => "S" ++ s
+  | .json (.other t i) => (if t then "O1" else "O0") ++ i
+  | .status s => "ES" ++ s.name
+  | .phase p => "EP" ++ p.name
+  | .time i => "T" ++ i
+  | .enumValue t => "EV" ++ t
+
+def parseField (t : String) : Option (String × PyVal) :=
+  match t.splitOn "=" with
+  | [k, v] => (parseVal v).map (fun x => (k, x))
+  | _ => none
+
+def parseSpecEntry (t : String) : Option (String × Kind) :=
+  match t.splitOn ":" with
+  | [k, kd] => (Kind.ofName? kd).map (fun x => (k, x))
+  | _ => none
+
+def defaultMark (k : String) : PyVal := .enumValue ("default-" ++ k)
+
+def showFields (m : Fields) : String :=
+  ",".intercalate (m.map (fun e =>
+    e.1 ++ "=" ++ (if e.2 == defaultMark e.1 then "<default>" else showVal e.2)))
+
+def drive (rest : String) : String :=
+  match rest.splitOn " " with
+  | ["roundtrip", shape, spec, fields] =>
+    match Parse.all? parseSpecEntry (spec.splitOn ","), Parse.all? parseField (fields.splitOn ",") with
+    | some spec, some m =>
+      if !instanceOf spec m then "not-an-instance"
+      else match serializeWith (shape.splitOn "+") m with
+        | none => "unserializable"
+        | some p => match deserialize spec defaultMark p with
+          | none => "undeserializable"
+          | some r => showFields r
+    | _, _ => "bad-request"
+  | ["update", set, new, old] =>
+    let parseRow (t : String) : Option Row :=
+      if t == "-" then some [] else Parse.all? (fun e => match e.splitOn "=" with
+        | [k, v] => some (k, v)
+        | _ => none) (t.splitOn ",")
+    match parseRow new, parseRow old with
+    | some n, some o => ",".intercalate ((applyUpdate (set.splitOn ",") n o).map (fun e => e.1 ++ "=" ++ e.2))
+    | _, _ => "bad-request"
+  | _ => "bad-request"
 
 end Stab.Codec
